@@ -100,7 +100,16 @@ var framerStart = time.Date(2023, 5, 10, 12, 0, 0, 0, time.UTC)
 
 // runStream feeds in to a fresh handler and records the delivered messages.
 // pace: 0 none, 1 producer yields, 2 consumer yields, 3 both + tiny sleeps.
+// forceInCap / forcePrefill: the next stream uses this input channel capacity, filled before the framer starts
+var forceInCap = -1
+var forcePrefill = false
+
 func runStream(w *tr.Writer, in []byte, cls string, inCap, outCap, pace int, grng *rand.Rand) {
+	prefill := false
+	if forceInCap >= 0 {
+		inCap, prefill = forceInCap, forcePrefill
+		forceInCap, forcePrefill = -1, false
+	}
 	// pacing draws come from a generator of their own: how many are made depends on timing, and the stream
 	// generator must produce the same cases for the same seed
 	rng := rand.New(rand.NewSource(grng.Int63()))
@@ -114,6 +123,13 @@ func runStream(w *tr.Writer, in []byte, cls string, inCap, outCap, pace int, grn
 	chOut := make(chan handler.Message, outCap)
 	h := handler.New(framerStart, slog.LevelDebug)
 	hdone := make(chan string, 1)
+	fed := 0
+	if prefill {
+		for fed < len(in) && fed < inCap {
+			chIn <- in[fed]
+			fed++
+		}
+	}
 	go func() {
 		hdone <- tr.Recover(func() { h.HandleMessages(chIn, chOut) })
 	}()
@@ -121,6 +137,9 @@ func runStream(w *tr.Writer, in []byte, cls string, inCap, outCap, pace int, grn
 	pauseAt, pauseFor, stallFor = -1, 0, 0
 	go func() {
 		for i, b := range in {
+			if i < fed {
+				continue
+			}
 			if i == pAt {
 				time.Sleep(pFor)
 			}
@@ -203,8 +222,13 @@ func containsClose(p string) bool {
 }
 
 func getMessage(w *tr.Writer, buf []byte, cls string) {
+	getMessageOn(w, handler.New(framerStart, slog.LevelDebug), buf, cls)
+}
+
+// getMessageOn: GetMessage on a handler that may already have seen other frames (the verdict on one
+// buffer must not depend on what the handler was given before)
+func getMessageOn(w *tr.Writer, h *handler.Handler, buf []byte, cls string) {
 	ev := evGetMessage{Ev: "getmessage", Buf: tr.Ints(buf), Cls: cls, Raw: []int{}}
-	h := handler.New(framerStart, slog.LevelDebug)
 	ev.Panic = tr.Recover(func() {
 		m, err := h.GetMessage(buf)
 		if err != nil {
@@ -346,6 +370,20 @@ func framer(args []string) {
 				run(gen.Junk(rng, n, (n+1)%3), fmt.Sprintf("only junk%d", n))
 			}
 		}
+		// the victim is a repeat of an earlier valid frame, damaged in the payload only (same type, length, CRC bytes)
+		if corrupt {
+			for k := 0; k < 3*scale; k++ {
+				typ := []int{1005, 1230, 1006, 4072, 1019}[k%5]
+				f := gen.Frame(rng, typ, 8+rng.Intn(30), 0)
+				d := append([]byte{}, f...)
+				i := 5 + rng.Intn(len(f)-8)
+				d[i] ^= byte(1 << uint(rng.Intn(8)))
+				pre := gen.Cat(f, gen.Junk(rng, []int{0, 3, 1}[k%3], 1))
+				post := gen.Cat(gen.Frame(rng, 1230, 6, 0), f)
+				pendingRef, pendingV = refAux(gen.Cat(pre, post)), [2]int{len(pre), len(pre) + len(d)}
+				run(gen.Cat(pre, d, post), "victim is a damaged twin of an earlier frame")
+			}
+		}
 		// junk runs of exactly 0..4 bytes around a frame (the victim in C12)
 		for n1 := 0; n1 <= 4; n1++ {
 			for n2 := 0; n2 <= 4; n2++ {
@@ -471,6 +509,29 @@ func framer(args []string) {
 			f := gen.Frame(rng, gen.TypeClass(rng, plen), plen, 0)
 			run(gen.Cat(f, f[:rng.Intn(len(f))]), fmt.Sprintf("len%d+tail", plen))
 		}
+		// tens of kilobytes, the whole stream (or a large part) waiting in a buffered input channel: capacity = length,
+		// 16384, 1024 with a consumer that stalls - anything that reads ahead meets its limits here
+		for k := 0; k < 3*scale; k++ {
+			var s []byte
+			want := []int{40000, 16384, 70000, 16385, 33000}[k%5]
+			for len(s) < want-1100 {
+				s = append(s, gen.Frame(rng, gen.TypeClass(rng, len(s)), 1+rng.Intn(1000), 0)...)
+				if rng.Intn(4) == 0 {
+					s = append(s, gen.Junk(rng, 1+rng.Intn(200), rng.Intn(3))...)
+				}
+			}
+			if pad := want - len(s); pad >= 7 {
+				s = append(s, gen.Frame(rng, 1019, pad-6, 0)...)
+			} else {
+				s = append(s, gen.Junk(rng, pad, 0)...)
+			}
+			forceInCap = []int{len(s), 16384, 1024}[k%3]
+			forcePrefill = k%3 != 2
+			if k%3 == 2 {
+				stallFor = 150 * time.Millisecond
+			}
+			run(s, fmt.Sprintf("big%d incap%d", len(s), forceInCap))
+		}
 		// the consumer stops receiving for a while after its first message while 30-60 further messages arrive
 		for k := 0; k < 3*scale; k++ {
 			var s []byte
@@ -536,6 +597,21 @@ func framer(args []string) {
 					getMessage(w, c, cls+" damaged there")
 				}
 			}
+		}
+		// history: a handler that has just accepted a valid frame is given the same frame again with damage confined
+		// to the payload (type bits, length and the stored CRC bytes as before), directly and in one stream
+		for k := 0; k < 3*scale; k++ {
+			typ := []int{1005, 1230, 1077, 1006, 4072}[k%5]
+			f := gen.Frame(rng, typ, 8+rng.Intn(30), 0)
+			d := append([]byte{}, f...)
+			i := 5 + rng.Intn(len(f)-8) // a payload byte after the type bits, before the CRC
+			d[i] ^= byte(1 << uint(rng.Intn(8)))
+			h := handler.New(framerStart, slog.LevelDebug)
+			getMessageOn(w, h, f, "history: valid")
+			getMessageOn(w, h, d, "history: same frame, payload damaged")
+			getMessageOn(w, h, f, "history: valid again")
+			run(gen.Cat(f, gen.Junk(rng, 2+rng.Intn(6), 1), d, f), "history stream: valid, text, damaged twin, valid")
+			run(gen.Cat(f, d), "history stream: valid, damaged twin")
 		}
 		for i, plen := range gen.Lens(rng, thorough, 6) {
 			typ := gen.TypeClass(rng, i)
